@@ -135,7 +135,8 @@ Print Assumptions C16_refcount_holders.
 
 (* ---- SharedSinkProvider ------------------------------------------------------------------------- *)
 
-(* After every history of CreateSink/DropHolder: while any holder r of a (truthy) key is alive,
+(* After every history of CreateSink/DropHolder/SEnv (the underlying sinks fault, close, re-open: CreateSink
+   does not look at their state): while any holder r of a (truthy) key is alive,
    CreateSink for that key returns the very sink r holds and creates no underlying sink; a holder stays
    alive until it is dropped itself; holders of different keys hold different sinks; and a key nobody
    holds (or a falsy key) gets a fresh underlying sink. *)
@@ -191,6 +192,6 @@ Proof. split; [vm_compute; reflexivity | cbn; intuition]. Qed.
 
 (* same key while a holder lives, a new sink after the last holder is gone *)
 Example C16_example_shared :
-  snd (shrun shinit [SCreate 7; SCreate 7; SDrop 0; SCreate 7; SDrop 1; SDrop 2; SCreate 7; SCreate 0])
-  = [[SUnder 0; SRet 0 true]; [SRet 0 true]; []; [SRet 0 true]; []; []; [SUnder 1; SRet 1 true]; [SUnder 2; SRet 2 false]].
+  snd (shrun shinit [SCreate 7; SCreate 7; SDrop 0; SEnv 0 4; SCreate 7; SDrop 1; SDrop 2; SCreate 7; SCreate 0])
+  = [[SUnder 0; SRet 0 true]; [SRet 0 true]; []; []; [SRet 0 true]; []; []; [SUnder 1; SRet 1 true]; [SUnder 2; SRet 2 false]].
 Proof. vm_compute; reflexivity. Qed.
